@@ -175,5 +175,22 @@
             assert!(lit == var, "{a} {o1} {b} {o2} {c}: literal {lit:?} variable {var:?}");
             n += 1;
         }}}}}
+        // keyword arguments with literal values (incl. negated numbers and container literals) versus variables
+        let mut env2 = Environment::new();
+        env2.add_function("show", |args: crate::value::Rest<Value>| -> String { format!("{:?}", args.0) });
+        let render2 = |src: &str, ctx: Value| -> Result<String, crate::ErrorKind> {
+            env2.template_from_str(src).unwrap_or_else(|e| panic!("load of {src:?} failed: {e}")).render(ctx).map_err(|e| e.kind())
+        };
+        let kwlits: &[&str] = &["1", "-2", "-2.5", "'s'", "true", "not true", "none", "[1, -2]", "(1, 2)", "{'k': -1}", "-(3)", "1 + 2"];
+        for a in kwlits { for b in kwlits {
+            let (va, vb) = (value_of(a), value_of(b));
+            for call in ["dict(a={A}, b={B})", "show(10, name={A}, offset={B})", "show({A}, k={B})", "dict(x=1, a={A}, b={B}, y=-1)"] {
+                let lit = render2(&format!("{{{{ {} }}}}", call.replace("{A}", a).replace("{B}", b)), crate::context! {});
+                let half = render2(&format!("{{{{ {} }}}}", call.replace("{A}", a).replace("{B}", "y")), crate::context! { y => vb.clone() });
+                let var = render2(&format!("{{{{ {} }}}}", call.replace("{A}", "x").replace("{B}", "y")), crate::context! { x => va.clone(), y => vb.clone() });
+                assert!(lit == var && half == var, "{call} with {a}, {b}: literal {lit:?}, half {half:?}, variable {var:?}");
+                n += 1;
+            }
+        }}
         assert!(n > 40_000, "box shrank: {n}");
     }
